@@ -245,7 +245,7 @@ func c01Stress(c *mon.Ctx, r *mon.Rand) {
 	nReacq := r.Range(1, 3)
 	nPassers := r.Range(1, 2)
 	iters := r.Range(200, 1500)
-	prof := mon.RandomProfile(r, []int{tally.VerifCtrLoaded1, tally.VerifCtrLoaded2, tally.VerifRegScopeReported, tally.VerifPassBegin, tally.VerifPassLocked,
+	prof := mon.RandomProfile(r, []int{tally.VerifCtrLoaded1, tally.VerifCtrLoaded2, tally.VerifCtrBeforeAdd, tally.VerifRegScopeReported, tally.VerifPassBegin, tally.VerifPassLocked,
 		tally.VerifReacquireBeforeReport, tally.VerifRemoveHandover1, tally.VerifRemoveHandover2, tally.VerifCloseEnter, tally.VerifCloseBeforeFinal, tally.VerifSubscopeUpgrade}, r.Intn(3))
 	inj := mon.NewDelayInjector(r.U64(), prof, true)
 	desc := map[string]interface{}{"cached": cached, "both_reporter_kinds_configured": both, "sanitizer_rewriting_reacquired_tags": withSan, "interval_us": interval.Microseconds(), "shards": shards, "scopes": nScopes, "counters_per_scope": perScope,
@@ -272,6 +272,19 @@ func c01Stress(c *mon.Ctx, r *mon.Rand) {
 			w := k % nWorkers
 			all[w] = append(all[w], &ctr{c: sc.Counter(name), name: fmt.Sprintf("s%d.%s", s, name)})
 			k++
+		}
+	}
+	// per worker: 48 single-bucket histograms, each recorded on only now and then,
+	// so that the last sample of a histogram often falls next to a pass visiting it
+	const nHist = 48
+	whist := make([][]tally.Histogram, nWorkers)
+	whsum := make([][]int64, nWorkers)
+	for w := range whist {
+		whist[w] = make([]tally.Histogram, nHist)
+		whsum[w] = make([]int64, nHist)
+		sc := root.SubScope(fmt.Sprintf("hs%d", w))
+		for k := range whist[w] {
+			whist[w][k] = sc.Histogram(fmt.Sprintf("h%d", k), tally.ValueBuckets{})
 		}
 	}
 	var wg sync.WaitGroup
@@ -301,6 +314,11 @@ func c01Stress(c *mon.Ctx, r *mon.Rand) {
 					k := wr.Intn(nShared)
 					sh[k].Inc(2)
 					atomic.AddInt64(&sharedSum[k], 2)
+				}
+				if i%3 == 0 {
+					k := wr.Intn(nHist)
+					whist[w][k].RecordValue(1)
+					whsum[w][k]++
 				}
 				if len(mine) == 0 {
 					continue // fewer counters than workers: this one only uses the shared ones
@@ -393,6 +411,14 @@ func c01Stress(c *mon.Ctx, r *mon.Rand) {
 				a := agg[mon.IdentKey(x.name, nil)]
 				if a.Sum != x.sum {
 					c.Violation("conservation", map[string]interface{}{"why": fmt.Sprintf("%s: delivered total %d, incremented total %d before Close", x.name, a.Sum, x.sum), "case": desc})
+				}
+			}
+		}
+		for w := range whist {
+			for k := range whist[w] {
+				a := agg[mon.BucketKeyV(fmt.Sprintf("hs%d.h%d", w, k), nil, -math.MaxFloat64, math.MaxFloat64)]
+				if a.Sum != whsum[w][k] {
+					c.Violation("conservation-histogram", map[string]interface{}{"why": fmt.Sprintf("histogram hs%d.h%d: %d samples delivered, %d recorded before Close", w, k, a.Sum, whsum[w][k]), "case": desc})
 				}
 			}
 		}
